@@ -12,6 +12,22 @@ import types
 EPOCH = _dt.datetime(2030, 1, 1, 0, 0, 0)
 
 
+def delay_raw(cfg):
+    """the value of the variable kill-after-producers-done-delay as the component configures it (cfg['delay']: a string or
+    a number, 0 included; '30' when the case only says has_delay); None: the option is absent"""
+    if not cfg['has_delay']:
+        assert cfg.get('delay') is None, cfg
+        return None
+    raw = cfg.get('delay', '30')
+    assert raw is not None, cfg
+    return raw
+
+
+def delay_ms(cfg):
+    raw = delay_raw(cfg)
+    return None if raw is None else int(round(float(raw) * 1000))
+
+
 def prod_list(cfg):
     """the observer's producers, in order: [dict(same_stage, prod_rep)]"""
     if cfg.get('prods') is not None:
@@ -140,7 +156,8 @@ def real_flowir(cfg, absdir):
     wa += '    optimizer:\n      disable: true\n'
     var = ''
     if cfg['has_delay']:
-        var += '    kill-after-producers-done-delay: "30"\n'
+        raw = delay_raw(cfg)
+        var += '    kill-after-producers-done-delay: %s\n' % ('"%s"' % raw if isinstance(raw, str) else repr(raw))
     if not cfg['check_out']:
         var += '    check-producer-output: "false"\n'
     c = ('- name: obs\n  stage: %d\n  command:\n    executable: "echo"\n    arguments: "%s"\n  references:\n%s  workflowAttributes:\n%s'
@@ -198,7 +215,10 @@ class FakeTask(object):
             d.pending_ntf = False
             d.ntf_mid.append(d.k)
             d.eng.notify_all_producers_finished()
-        if self.o['sui']:
+        if d.timed:
+            # the clock drives the timer: it expires during this execution iff its time has come by the end of it
+            d.maybe_fire()
+        elif self.o['sui']:
             d.fire_suicide()
         self.returncode = self.o['rc']
         self.exitReason = 'ResourceExhausted' if self.o['re'] else ('Success' if self.o['rc'] == 0 else 'KnownIssue')
@@ -248,8 +268,15 @@ class Driver(object):
                 s.delay = delay
 
             def subscribe(s, on_next=None, on_error=None, on_completed=None, **k):
+                if drv.timer_cb is None:
+                    try:
+                        drv.timer_due = drv.now_ms + int(round(float(s.delay) * 1000))
+                    except Exception:
+                        drv.timer_due = None
+                        drv.errors.append('timer-delay:%r' % (s.delay,))
                 drv.timer_cb = on_completed
                 drv.timer_delay = s.delay
+                drv.timers.append((drv.k, s.delay))
                 return types.SimpleNamespace(dispose=lambda: None)
         rx = types.SimpleNamespace(**{k: getattr(E.reactivex, k) for k in dir(E.reactivex) if not k.startswith('__')})
         rx.timer = lambda d, *a, **k: FakeTimer(d)
@@ -265,6 +292,22 @@ class Driver(object):
         E.datetime, M.datetime, M.threading, M.time, E.archive_stream, E.reactivex = self._saved
 
     # ------------------------------------------------------------------ script
+    def maybe_fire(self):
+        # timed scripts: the pending timer expires as soon as the (fake) clock has reached the time it was armed + its delay
+        if self.timed and self.timer_cb is not None and self.timer_due is not None and self.now_ms >= self.timer_due:
+            self.fire_suicide()
+
+    def _notify(self):
+        # every delivery of the producers-finished notification: was the engine alive, how many timers did it arm
+        e = self.eng
+        alive = bool(e.isAlive())
+        n0 = len(self.timers)
+        try:
+            return self._real_notify()
+        finally:
+            self.notified.append({'k': min(self.k, len(self.steps) - 1), 'alive': alive, 't': self.now_ms,
+                                  'timers': [d for (_k, d) in self.timers[n0:]]})
+
     def fire_suicide(self):
         cb, self.timer_cb = self.timer_cb, None
         if cb is not None:
@@ -275,6 +318,10 @@ class Driver(object):
                 self.errors.append('suicide:%s' % type(e).__name__)
 
     def _apply(self, ev):
+        self._apply1(ev)
+        self.maybe_fire()
+
+    def _apply1(self, ev):
         if ev.startswith('Out'):
             # 'Out' = producer 0 writes output now, 'Out<k>' = producer k does (a write of a producer the
             # configuration does not have is a no-op; so is, in stageIn mode, the write of a producer that has finished)
@@ -317,7 +364,7 @@ class Driver(object):
                          'reason': {None: 'RNone', 'Success': 'RSuccess', 'ResourceExhausted': 'RResExh'}.get(r, 'R?%s' % r),
                          'consume': bool(e.consume), 'pf': bool(e._producers_are_finished), 'suicide': bool(e._suicide),
                          'll': int(round((e.lastLaunched - EPOCH).total_seconds() * 1000)),
-                         'actions': self.actions, 'lasts': self.lasts})
+                         'actions': self.actions, 'lasts': self.lasts, 'now': self.now_ms})
         if self.real is not None:
             self._real_observe()
 
@@ -327,6 +374,7 @@ class Driver(object):
             # the poll launched nothing: the notification arrives right after it
             self.pending_ntf = False
             self.eng.notify_all_producers_finished()
+            self.maybe_fire()
         self._observe()
         self.k += 1
         if self.k >= len(self.steps):
@@ -335,6 +383,7 @@ class Driver(object):
             self.errors.append('sleep:%r' % (secs,))
         st = self.steps[self.k]
         self.now_ms += st['dt']
+        self.maybe_fire()
         for ev in st['evs']:
             self._apply(ev)
         self.pending_ntf = bool(st['o'].get('ntf'))
@@ -519,6 +568,10 @@ class Driver(object):
         self.actions = 0
         self.lasts = 0
         self.timer_cb = None
+        self.timer_due = None
+        self.timers = []                    # every reactivex.timer the engine subscribed to: (step, delay in seconds)
+        self.notified = []                  # every delivery of the producers-finished notification
+        self.timed = bool(cfg.get('timed'))  # the kill-delay timer expires by the clock, not when the script says so
         self.fired = []
         self.kills = []
         self.pending_ntf = False
@@ -581,7 +634,7 @@ class Driver(object):
             j.producerInstances = self.job_prods
         var = {}
         if cfg['has_delay']:
-            var['kill-after-producers-done-delay'] = '30'
+            var['kill-after-producers-done-delay'] = delay_raw(cfg)
         if not cfg['check_out']:
             var['check-producer-output'] = 'false'
         j.flowir_description = {'variables': var}
@@ -591,6 +644,8 @@ class Driver(object):
         eng = E.RepeatingEngine(j, taskGenerator=self._gen())
         eng.emit_now = lambda *a, **k: None
         self.eng = eng
+        self._real_notify = eng.notify_all_producers_finished
+        eng.notify_all_producers_finished = self._notify
         return self._drive(cfg, plist, steps, stagein)
 
     def _gen(self):
@@ -665,6 +720,8 @@ class Driver(object):
                 eng = E.RepeatingEngine(j, taskGenerator=self._gen())
                 eng.emit_now = lambda *a, **k: None
                 self.eng = eng
+                self._real_notify = eng.notify_all_producers_finished
+                eng.notify_all_producers_finished = self._notify
             except Exception as e:
                 self.errors.append('real-setup:%s:%s' % (type(e).__name__, str(e)[:1500]))
         finally:
@@ -790,4 +847,5 @@ class Driver(object):
             self.M.CreateMonitor = real_cm
         return {'obs': self.obs, 'finished': finished, 'execs': list(self.execs), 'errors': list(self.errors),
                 'nsteps': len(self.obs), 'fired': list(self.fired), 'kills': list(self.kills), 'los': list(self.los), 'eff': [list(e) for e in self.eff],
-                'w': self.impl_w, 'pinst': self.impl_pinst}
+                'w': self.impl_w, 'pinst': self.impl_pinst, 'notified': list(self.notified), 'timers': list(self.timers),
+                'ntf_mid': list(self.ntf_mid)}
